@@ -31,7 +31,7 @@ REACH = [
 ]
 PLAN = {
     "quick": {"shards": 8, "cases": 3600, "timeout_s": 900, "min_evaluations": 24000,
-              "min_counters": {"operations": 240000, "identifier_reads": 60000, "marker_operations": 60000, "symlinks_replaced": 4500,
+              "min_counters": {"operations": 240000, "identifier_reads": 60000, "marker_operations": 40000, "symlinks_replaced": 4500,
                                "reads_of_existing_file_checked": 24000}},
     "thorough": {"shards": 16, "cases": 12000, "timeout_s": 3300, "min_evaluations": 150000,
                  "min_counters": {"operations": 1500000}},
